@@ -828,13 +828,14 @@ fn invalid(c: &mut Case) {
 fn main() {
     runner::main(Spec {
         property: "C08",
-        rule: "per case a design X (1<=p<=6, p<n<=60, random orthogonal factors with graded singular values, column scales 0.1..100, column means 0 / 1 / 4 column scales) whose standardised version has measured cond <= 1e3 and no (nearly) constant column, a noisy sparse-linear target with mean 0 / moderate / 1e3..1e6 spreads, alpha from 1e-3 to 3 alpha_max, tol in {1e-3..1e-6}, normalisation on/off, l1_ratio in (0,1]; families: lasso, enet (near-optimality against a duality-gap certified reference, intercept mapping, predict), enet_rho1 (elastic net at l1_ratio=1 vs Lasso), lasso_shift / enet_shift (fit(y) vs fit(y+c)), invalid (Lasso must return Err). A case is non-trivial when the fit returned and the reference certificate (gap <= 1e-12 F + 1e-13 ‖y-ȳ‖²) was reached (invalid-setting cases always are); distinct = hash of the materialised input",
+        rule: "per case a design X (1<=p<=6, p<n<=60, random orthogonal factors with graded singular values, column scales 0.1..100, column means 0 / 1 / 4 column scales) whose standardised version has measured cond <= 1e3 and no (nearly) constant column, a noisy sparse-linear target with mean 0 / moderate / 1e3..1e6 spreads, alpha from 1e-3 to 3 alpha_max, tol in {1e-3,1e-4,1e-5,1e-6}, normalisation on/off, l1_ratio in (0,1]; families: lasso, enet (near-optimality against a duality-gap certified reference, intercept mapping, predict on the training rows and three unseen rows), enet_rho1 (elastic net at l1_ratio=1 vs Lasso), lasso_shift / enet_shift (fit(y) vs fit(y+c), c in {1, 1e3, spread, 1e3 spread, 1e6 spread} with either sign), constant_target (y constant: termination, Ok, finite, objective 0), invalid (Lasso must return Err for alpha<0, tol<=0, max_iter=0, n<=p, len(y)!=n, constant column under normalisation). Every fit runs under a budget of 5e6 line-search steps (exceeding it is a termination violation). A case is non-trivial when the fit returned and the reference certificate was reached (invalid-setting and constant-target cases always are); distinct = hash of the materialised input",
         assumptions: vec![
-            "f64 only (tol down to 1e-6 is not meaningful in f32); max_iter = 1000 (library default) for all valid fits",
+            "f64 with the DenseMatrix backend only (tol down to 1e-6 is not meaningful in f32; backend equivalence is C20); max_iter = 1000 (library default) for all valid fits",
             "'moderately conditioned' is measured on the standardised design (cond <= 1e3, reference Jacobi SVD); in raw mode the column scales 0.1..100 and the column means add to the condition number of the matrix the optimiser sees (bucketed as cond(Z used))",
+            "reference: cyclic coordinate descent on the stated objective, polished by an exact solve on its support (all 3^p sign patterns as fall-back), accepted only with duality gap <= 1e-12·F + 1e-13·‖y−ȳ‖² (second level 1e-9·F for ill-scaled raw designs, bucket reference:gap<=1e-9), otherwise inconclusive; the oracle compares with the certified upper bound of F*",
             "objective threshold: F(w_impl) − F*_upper <= 10·tol·F* + 1e-10·‖y−ȳ‖² + rounding slack of the library's plain-sum target mean (4·δ·√n·‖y−ȳ‖ + n·δ², δ = 2·n·ε·max|y|)",
-            "shift / l1_ratio=1 coefficient comparison allows 1e-6·‖w‖ + 2·sqrt(objective threshold / (σ_min(Z)² + n·α·(1−ρ))) (strong convexity) + rounding of y+c",
-            "alpha = 0 and constant targets (F* = 0, relative tolerance undefined) are outside the quantifier and are not generated",
+            "shift / l1_ratio=1 coefficient comparison (in the units of the stated objective) allows 1e-6·‖w‖ + 2·sqrt(objective threshold / (σ_min(Z)² + n·α·(1−ρ))) (strong convexity) + rounding of y+c; intercepts additionally ‖mean/std‖·(coefficient slack) + 1e-9·(|c| + max|y| + |b|)",
+            "alpha = 0 is allowed by the statement but excluded by its quantifier (alpha from 1e-3) and is not generated; constant targets (F* = 0, relative tolerance void) are checked only for termination, Ok, finiteness and an absolute objective slack of 1e-10·n·ȳ²",
         ],
         families: vec![
             Family::new("lasso", 2000, 30000, lasso),
@@ -842,7 +843,7 @@ fn main() {
             Family::new("enet_rho1", 700, 10000, enet_rho1),
             Family::new("lasso_shift", 800, 12000, lasso_shift),
             Family::new("enet_shift", 1200, 18000, enet_shift),
-            Family::new("constant_target", 40, 300, constant_target),
+            Family::new("constant_target", 32, 300, constant_target),
             Family::new("invalid", 600, 6000, invalid),
         ],
         min_nontrivial: 1000,
